@@ -196,7 +196,14 @@ static Exec exec_op(Case &c, Ctx &x, const Op &o)
     case OP_CTRL:
         switch(o.a)
         {
-        case 0: API("opn2_rt_pitchBend", opn2_rt_pitchBend(d, (uint8_t)o.ch, (OPN2_UInt16)o.b)); break;
+        case 0: API("opn2_rt_pitchBend", opn2_rt_pitchBend(d, (uint8_t)o.ch, (OPN2_UInt16)((o.b & 3) == 0 ? 16383 : (o.b & 3) == 1 ? 0 : o.b))); break;
+        case 8:
+        {   // bend range through RPN 0, up to the largest value the message can carry
+            static const int msbs[] = {127, 24, 2, 0, 12, 127, 96, 48};
+            API("opn2_rt_controllerChange", opn2_rt_controllerChange(d, (uint8_t)o.ch, 101, 0)); API("opn2_rt_controllerChange", opn2_rt_controllerChange(d, (uint8_t)o.ch, 100, 0));
+            API("opn2_rt_controllerChange", opn2_rt_controllerChange(d, (uint8_t)o.ch, 6, (uint8_t)msbs[o.b & 7])); API("opn2_rt_controllerChange", opn2_rt_controllerChange(d, (uint8_t)o.ch, 38, (uint8_t)((o.b >> 3) & 127)));
+            break;
+        }
         case 1: API("opn2_rt_controllerChange", opn2_rt_controllerChange(d, (uint8_t)o.ch, 7, (uint8_t)(o.b & 127))); break;
         case 2: API("opn2_rt_controllerChange", opn2_rt_controllerChange(d, (uint8_t)o.ch, 10, (uint8_t)(o.b & 127))); break;
         case 3: API("opn2_rt_controllerChange", opn2_rt_controllerChange(d, (uint8_t)o.ch, 1, (uint8_t)(o.b & 127))); break;
@@ -238,6 +245,7 @@ static Op gen_op(Rng &r, const std::string &mode, int nkeys, bool allow_struct)
     Op o; o.ch = r.pick(chans); o.a = 0; o.b = 0;
     int base = (o.ch == 9) ? 36 : 60;
     int key = base + (int)r.below((uint32_t)nkeys);
+    if(mode != "c05" && r.chance(0.04)) key = r.range(90, 127);      // the top of the keyboard (with wide bend ranges: tones far above the chip's range)
     if(r.chance(0.03)) key = r.chance(0.5) ? 127 : 0;      // the ends of the key range
     int p = (int)r.below(1000);
     if(p < 330) { o.kind = OP_ON; o.a = key; o.b = r.chance(0.5) ? 127 : r.range(1, 127); }
@@ -261,12 +269,12 @@ static Op gen_op(Rng &r, const std::string &mode, int nkeys, bool allow_struct)
             if(q < 30) { o.kind = OP_GENLONG; o.a = r.pick((const int[]){200, 1000, 5000, 30000, 70000}); }
             else if(q < 50) { o.kind = OP_ARP; o.a = (int)r.below(2); }
             else if(q < 70) { o.kind = OP_ALLOCMODE; o.a = r.range(-1, 2); }
-            else { o.kind = OP_CTRL; o.a = (int)r.below(8); o.b = (int)r.below(16384); }
+            else { o.kind = OP_CTRL; o.a = (int)r.below(9); o.b = (int)r.below(16384); }
         }
         else
         {
             if(q < 15) { o.kind = OP_ARP; o.a = (int)r.below(2); }
-            else if(q < 40) { o.kind = OP_CTRL; o.a = (int)r.below(8); o.b = (int)r.below(16384); }
+            else if(q < 40) { o.kind = OP_CTRL; o.a = (int)r.below(9); o.b = (int)r.below(16384); }
             else if(q < 50) { o.kind = OP_INSEDIT; o.a = r.range(0, 30); o.b = (int)r.below(2); }
             else if(!allow_struct) { o.kind = OP_GEN; o.a = r.range(1, 40); }
             else if(q < 60) { o.kind = OP_NUMCHIPS; o.a = r.range(1, 4); }
@@ -688,6 +696,15 @@ static void run_case(Case &c)
         int nkeys = r.chance(0.5) ? r.range(2, 5) : r.range(6, 24);
         if(mode == "c05") nkeys = r.range(2, 4 + x.chips);    // keep polyphony mostly below the limit
         for(int i = 0; i < n; i++) ops.push_back(gen_op(r, mode, nkeys, true));
+        if(mode != "c05" && r.chance(0.08))
+        {   // a phrase far outside the chip's range: the widest bend range, the wheel at an end, keys at the top or bottom of the keyboard
+            int ch = (int)r.pick((const int[]){0, 1, 2});
+            std::vector<Op> ph; Op o; o.ch = ch;
+            o.kind = OP_CTRL; o.a = 8; o.b = (int)(r.below(2) * 5 + 8 * r.below(128)); ph.push_back(o);          // range MSB 127
+            o.kind = OP_CTRL; o.a = 0; o.b = r.chance(0.7) ? 0 : 1; ph.push_back(o);                              // wheel fully up / fully down
+            for(int i = 0, m = r.range(1, 4); i < m; i++) { o.kind = OP_ON; o.a = r.chance(0.7) ? r.range(70, 127) : r.range(0, 30); o.b = 100; ph.push_back(o); if(r.chance(0.5)) { Op g; g.kind = OP_GEN; g.ch = 0; g.a = r.range(1, 20); g.b = 0; ph.push_back(g); } }
+            ops.insert(ops.begin() + (long)r.below((uint32_t)ops.size() + 1), ph.begin(), ph.end());
+        }
         if(g_w.optnum("pressure", 0))
         {   // polyphony pressure on one chip: more keys than chip channels, pedals held, few timbres, hardly any audio in
             // between and nothing that empties the chip -> channel stealing, arpeggio sharing and evacuation all the time
